@@ -260,7 +260,8 @@ def _expression_helper(fi):
                 return None
             # a local holding the result of a call is evaluated once: it may be substituted only where it is read once
             reads = sum(1 for later in body[body.index(st) + 1 :] for x in ast.walk(later) if isinstance(x, ast.Name) and x.id == t and isinstance(x.ctx, ast.Load))
-            if reads > 1 and _has(st.value, (ast.Call,)):
+            impure = ("execute", "executemany", "executescript", "fetchone", "fetchall", "fetchmany", "cursor", "commit", "pop", "popleft", "popitem", "append", "extend", "remove", "insert", "read", "readline", "write", "save", "create", "delete_instance", "get", "get_or_none", "first", "count", "connect", "close")
+            if reads > 1 and any(isinstance(x, ast.Call) and ((isinstance(x.func, ast.Attribute) and x.func.attr in impure) or (isinstance(x.func, ast.Name) and x.func.id in ("next", "open", "input"))) for x in ast.walk(st.value)):
                 return None
             env[t] = _Subst(dict(env), {}).visit(ast.parse(ast.unparse(st.value), mode="eval").body)
         if _has(body[-1].value, (ast.Lambda, ast.NamedExpr)):
